@@ -283,12 +283,14 @@ impl DebuggerContext {
                     };
 
                     if contains_rule {
-    #[cfg(pest_parser_pest_verif)]
+                        #[cfg(pest_parser_pest_verif)]
                         verif::point("parser.send");
                         rsender
                             .send(DebuggerEvent::Breakpoint(rule, pos.pos()))
                             .expect(CHANNEL_CLOSED_PANIC);
 
+                        #[cfg(pest_parser_pest_verif)]
+                        verif::point("parser.park");
                         thread::park();
                     }
                     false
@@ -305,6 +307,8 @@ impl DebuggerContext {
                     .expect(CHANNEL_CLOSED_PANIC),
             };
 
+            #[cfg(pest_parser_pest_verif)]
+            verif::point("parser.set_done");
             is_done.store(true, Ordering::SeqCst);
         })
     }
